@@ -3,7 +3,7 @@
 Require Extraction.
 Require Import ExtrOcamlBasic.
 From Coq Require Import NArith ZArith List.
-From VT Require Import Gen.Constants Base.Outcome Model.Cache Model.BBox Model.Pipeline.
+From VT Require Import Gen.Constants Base.Outcome Model.Cache Model.BBox Model.Pipeline Model.Stream Model.FileIO.
 Extraction Blacklist String List Nat Int Char.
 Set Extraction KeepSingleton.
 Extraction "../ocaml/model.ml"
@@ -12,6 +12,8 @@ Extraction "../ocaml/model.ml"
   Constants.cache_median_variant Constants.bbox_add_border_variant Constants.bbox_index_variant
   Constants.conv_lookup_inverse Constants.conv_range_guard Constants.conv_selection_guard
   Pipeline.denote Pipeline.look Pipeline.strm Pipeline.cov
+  Stream.accepts Stream.chunks
+  Constants.file_read_variant FileIO.read_range_prog
   Cache.run Cache.empty
   BBox.new BBox.new_full BBox.new_empty BBox.is_empty BBox.width BBox.height BBox.count_tiles BBox.contains2 BBox.contains3
   BBox.set_empty BBox.include_coord BBox.add_border BBox.include_bbox BBox.intersect_bbox BBox.overlaps_bbox
